@@ -17,12 +17,13 @@ pub fn read_lines(path: &str) -> Result<Vec<J>, String> {
 pub struct TraceOut {
     w: BufWriter<std::fs::File>,
     pub n: usize,
+    pub truncated: usize,
 }
 
 impl TraceOut {
     pub fn create(path: &str) -> Result<Self, String> {
         let f = std::fs::File::create(path).map_err(|e| format!("{path}: {e}"))?;
-        Ok(TraceOut { w: BufWriter::new(f), n: 0 })
+        Ok(TraceOut { w: BufWriter::new(f), n: 0, truncated: 0 })
     }
     pub fn emit(&mut self, v: J) {
         serde_json::to_writer(&mut self.w, &v).unwrap();
